@@ -96,7 +96,7 @@ fn run(ctx: &mut Ctx) {
         ctx.inconclusive("analysis binaries not built".into());
         return;
     }
-    let m = sim::Model::load(REPO);
+    let m = sim::Model::load(&repo_root());
     let inv = crate::maps::inverse(u32::MAX);
     let thorough = !ctx.quick();
     let have_valgrind = Command::new("valgrind").arg("--version").output().map(|o| o.status.success()).unwrap_or(false);
